@@ -26,6 +26,12 @@ def gen_case(rng, infos, ci):
         "seed": rng.randrange(1 << 30),
         "switch_prob": rng.choice([0.05, 0.3, 0.6]),
         "update_cb": True,
+        # functions removed from THIS instance before initialising (`del subunit.<function>`), and whether an
+        # instance of the same class has been initialised before in the process (complete, or with removals)
+        "deleted": sorted(rng.sample(range(len(funcs)), rng.randrange(1, min(4, len(funcs)) + 1))) if rng.random() < 0.3 else [],
+        "predecessor": rng.choice([None, None, "complete", "with-removals"]),
+        # the device swallows the first k commands it receives after connecting (a receiver waking up)
+        "swallow": rng.choice([0, 0, 0, 1, 2]),
     }
 
 
@@ -45,10 +51,25 @@ def run_case(case, infos):
     if case["version"] != "never":
         store["SYS"]["VERSION"] = "2.07/1.93"
     rx = AS.VirtualReceiver(store, groups)
+    if case.get("swallow"):
+        inner = rx.respond
+        left = [case["swallow"]]
+
+        def respond(line, idx):
+            if left[0] > 0:
+                left[0] -= 1
+                return []
+            return inner(line, idx)
+
+        rx.respond = respond
     lat = case["latency_us"]
 
+    started = {"v": False}
+
     def latency(line, idx):
-        if case["version"] == "late" and line == "@SYS:VERSION=?":
+        # only the synchronisation reply of the initialisation under test is late (a late reply to an EARLIER
+        # query arriving during this call cannot be told apart by the protocol: outside the statement's device)
+        if case["version"] == "late" and line == "@SYS:VERSION=?" and started["v"]:
             return lat + case["late_us"]
         return lat
 
@@ -62,7 +83,28 @@ def run_case(case, infos):
         c.connect()
         s.conn = c
         s.sleep(0.5)  # let the two start-up probes pass
+        if case.get("predecessor"):
+            # another instance of the same class went through initialisation earlier in this process
+            pre = cls(c)
+            if case["predecessor"] == "with-removals":
+                for attr, f in funcs[:2]:
+                    try:
+                        delattr(pre, attr)
+                    except Exception:  # noqa
+                        pass
+            try:
+                pre.initialize()
+            except Exception:  # noqa
+                pass
+            pre.close()
+            s.sleep(0.3)
+        started["v"] = True
         inst = cls(c)
+        for k in case.get("deleted", []):
+            try:
+                delattr(inst, funcs[k][0])
+            except Exception:  # noqa
+                pass
         s.inst = inst
         inst.register_update_callback(lambda f, v: s.notes.append((len(s.sim.events), f, canon_value(v))))
         if case["stray_version_before"]:
@@ -104,7 +146,7 @@ def monitor(s, case, infos, rx):
     ev = s.sim.events
     writes = [(i, bytes(e["data"])[:-2].decode("utf-8", "replace")) for i, e in enumerate(ev) if e["k"] == "Write" and s.i_start <= i]
     enq = [e["item"] for e in ev[s.i_start : s.i_end] if e["k"] == "Enq" and e.get("marker") is None]
-    plan = expected_plan(funcs)
+    plan = expected_plan([x for k, x in enumerate(funcs) if k not in set(case.get("deleted", []))])
     want = [f"@{cid}:{q}=?" for q in plan] + ["@SYS:VERSION=?"]
     # the statement fixes WHICH queries are sent, each once, and that the synchronisation query is last -- not the order of the others
     if not (sorted(enq[:-1]) == sorted(want[:-1]) and enq[-1:] == want[-1:]):
@@ -142,7 +184,10 @@ def monitor(s, case, infos, rx):
                 if t and t[0] == cid:
                     last[t[1]] = t[2]
         cache = dict(s.cache_at_return)
+        removed = {funcs[k][1].name for k in case.get("deleted", [])}
         for attr, f in funcs:
+            if f.name in removed:
+                continue  # removed from this instance: nothing to read
             if f.name in last:
                 try:
                     exp = canon_value(f.converter.to_value(last[f.name]))
@@ -190,7 +235,11 @@ def run(chk: Check):
 
     validated = 0
     if not any(b["obligation"].startswith(("translator", "compile")) for b in chk.broken):
-        items = [(cid, [e["item"] for e in s.sim.events[s.i_start : s.i_end] if e["k"] == "Enq" and e.get("marker") is None]) for (case, s), (cls, cid, funcs) in ((x, infos[x[0]["class"]]) for x in sessions[::per])]
+        firsts = {}
+        for case, s in sessions:
+            if not case.get("deleted") and case["class"] not in firsts:
+                firsts[case["class"]] = (case, s)
+        items = [(cid, [e["item"] for e in s.sim.events[s.i_start : s.i_end] if e["k"] == "Enq" and e.get("marker") is None]) for (case, s), (cls, cid, funcs) in ((x, infos[x[0]["class"]]) for x in firsts.values())]
         lines = [coqio.CASES_HEADER, "From Ynca Require Import Model.Line Model.Api Gen.Enums Gen.Functions Gen.Params.\n"]
         lines.append("Definition ids : list text := [" + "; ".join(ct(cid) for cid, _ in items) + "].\n")
         lines.append(
